@@ -2,6 +2,7 @@ import DynasmVerif.Drv.Reloc
 import DynasmVerif.Drv.Asm
 import DynasmVerif.Drv.Fold
 import DynasmVerif.Drv.A64Imm
+import DynasmVerif.Drv.RvExec
 
 /-! Line-protocol driver: reads request lines on stdin, answers each with one `= …` line.
 The first line `hdr <stream> …` selects the stream. The harness output (requests interleaved with its own
@@ -25,6 +26,7 @@ def exec (st : DState) (req hint : String) : DState × String :=
     | "reloc" => (st, Drv.Reloc.handle ws)
     | "fold" => (st, Drv.Fold.handle ws)
     | "a64imm" => (st, Drv.A64Imm.handle ws)
+    | "rvexec" => (st, Drv.RvExec.handle ws)
     | "asm" =>
       match ws with
       | ["reset"] => ({ st with asm := {} }, "= ok")
